@@ -461,6 +461,10 @@ def wf_constraints(v) -> List[Any]:
             out.extend(wf_constraints(x))
     if isinstance(v, SMap):
         out.append(v.size >= 0)
+        # size is the cardinality of the key set: it is zero exactly when there is no key
+        wk = z3.Const(fresh_name('wf_k'), sort_of(v.kt))
+        out.append(z3.ForAll([wk], z3.Implies(z3.Select(v.has, wk), v.size >= 1)))
+        out.append(z3.Implies(v.size >= 1, z3.Exists([wk], z3.Select(v.has, wk))))
     if isinstance(v, SDict):
         it = v.items
         out.append(it.len >= 0)
@@ -1151,6 +1155,19 @@ class Engine:
                 L = it
             elif isinstance(it, SList):
                 L = it
+            elif isinstance(it, SMap):
+                # iteration over a finite set / the keys of a map: some duplicate-free enumeration E of exactly its members,
+                # len(E) == its cardinality (the order is arbitrary, so nothing is assumed about it)
+                E = fresh_value(('list', it.kt), 'enum_of_' + ast.unparse(node.iter).replace('.', '_'))
+                ea, eb = z3.Int(fresh_name('en_a')), z3.Int(fresh_name('en_b'))
+                ek = z3.Const(fresh_name('en_k'), sort_of(it.kt))
+                st.assume(E.len == it.size)
+                st.assume(E.len >= 0)
+                st.assume(z3.ForAll([ea], z3.Implies(z3.And(ea >= 0, ea < E.len), z3.Select(it.has, z3.Select(E.arr, ea)))))
+                st.assume(z3.ForAll([ea, eb], z3.Implies(z3.And(0 <= ea, ea < eb, eb < E.len), z3.Select(E.arr, ea) != z3.Select(E.arr, eb))))
+                st.assume(z3.ForAll([ek], z3.Implies(z3.Select(it.has, ek), z3.Exists([ea], z3.And(ea >= 0, ea < E.len, z3.Select(E.arr, ea) == ek)))))
+                st.env['ENUM_' + ''.join(ch if ch.isalnum() else '_' for ch in ast.unparse(node.iter))] = E  # visible to loop invariants
+                L = E
             else:
                 raise Undecided('for-loop iterable %s' % ast.unparse(node.iter))
             if spec.index is None:
@@ -1914,6 +1931,10 @@ class Engine:
         raise Undecided('set display with non-literal elements')
 
     def ev_Subscript(self, node, st):
+        hook = self.c.calls.get('subscript:' + ast.unparse(node.value))
+        if hook is not None and not isinstance(node.slice, ast.Slice):
+            # a container whose indexing the contract gives a meaning to (e.g. SortedSet[0] = an element with the least key)
+            return hook(self, st, [self.ev(node.value, st), self.ev(node.slice, st)], {}, node)
         cont = self.ev(node.value, st)
         if isinstance(node.slice, ast.Slice):
             return self.slice(cont, node.slice, st)
@@ -1974,6 +1995,8 @@ class Engine:
             return from_z3(z3.Select(cont.arr, i), cont.et)
         if isinstance(cont, z3.ArrayRef):
             return from_z3(z3.Select(cont, to_z3(idx)), _type_of_sort(cont.sort().range()))
+        if isinstance(cont, z3.QuantifierRef) and cont.is_lambda():
+            return from_z3(z3.Select(cont, to_z3(idx)), _type_of_sort(cont.sort().range()))  # an array given by a lambda term
         raise Undecided('subscript of %r' % (cont,))
 
     def slice(self, cont, sl, st):
@@ -1989,6 +2012,30 @@ class Engine:
         i = z3.Int(fresh_name('sl_i'))
         ln = z3.If(hi > lo, hi - lo, 0)
         return SList(ln, z3.Lambda([i], z3.Select(cont.arr, i + lo)), cont.et)
+
+    def ev_GeneratorExp(self, node, st):
+        """a generator over a LITERAL list/tuple whose filters are decided concretely per element on the current path
+        (e.g. `c for c in [a, b] if c is not None` with a, b each either None or a number): the tuple of kept elements"""
+        if len(node.generators) != 1 or node.generators[0].is_async or not isinstance(node.generators[0].iter, (ast.List, ast.Tuple)):
+            raise Undecided('generator expression over a non-literal iterable')
+        g = node.generators[0]
+        out = []
+        for e in g.iter.elts:
+            v = self.ev(e, st)
+            s2 = st.fork()
+            self.assign(g.target, v, s2)
+            keep = True
+            for cnd in g.ifs:
+                t = z3.simplify(self.truthy(self.ev(cnd, s2)))
+                if z3.is_true(t):
+                    continue
+                if z3.is_false(t):
+                    keep = False
+                    break
+                raise Undecided('generator filter not decided on this path: %s' % ast.unparse(cnd))
+            if keep:
+                out.append(self.ev(node.elt, s2))
+        return tuple(out)
 
     def ev_ListComp(self, node, st):
         if len(node.generators) != 1 or node.generators[0].ifs or node.generators[0].is_async:
@@ -2160,6 +2207,17 @@ class Engine:
         if fname == 'implies':
             a, b = [self.truthy(self.ev(x, st)) for x in node.args]
             return z3.Implies(a, b)
+        if fname == 'ghost_assume' and len(node.args) == 2 and isinstance(node.args[1], ast.Constant):
+            # ghost code only: a stated fact about ghost state that is not derivable inside the logic (e.g. a ghost sum equals the
+            # sum it mirrors); every use is listed in the evidence as an assumption with its justification text
+            was = getattr(self, 'in_spec', False)
+            self.in_spec = True
+            try:
+                st.assume(self.truthy(self.ev(node.args[0], st)))
+            finally:
+                self.in_spec = was
+            self.ctx.assume('%s: ghost assumption `%s` - %s' % (self.label, ast.unparse(node.args[0]), node.args[1].value))
+            return None
         if fname == 'old':
             s2 = State(dict(self.entry_env), st.pc)
             return self.ev(node.args[0], s2)
@@ -2328,7 +2386,7 @@ class Engine:
 
     def call_builtin(self, name, node, st):
         args = [self.ev_lenient(a, st) for a in node.args]
-        if any(isinstance(a, tuple) and a and a[0] == '*' for a in args):
+        if any(isinstance(a, tuple) and a and isinstance(a[0], str) and a[0] == '*' for a in args):
             # f(*xs): only an unmodelled callee tolerates an unexpanded argument list (its result is havocked anyway)
             self.unmodelled.append(name)
             return z3.Const(fresh_name('unmodelled_' + name.replace('.', '_')), U)
@@ -2354,6 +2412,8 @@ class Engine:
         if name in ('min', 'max'):
             if len(args) == 1 and isinstance(args[0], tuple):
                 args = list(args[0])
+                if not args:
+                    raise PyRaise(SExc('ValueError'))
             r = self.num(args[0])
             for x in args[1:]:
                 xz = self.num(x)
